@@ -70,4 +70,15 @@ PROPS = {
         trusted=["hand-written engine model (engine and replica suites)", "page size per name is kept fixed in this suite (size change belongs to C16)"],
         assumptions=["crash points inside the drop are covered under C05", "directory listings (RootHandle.ReadDirAll) are not driven: the FUSE layer needs a mount"],
     ),
+    "C05": dict(
+        suites=[dict(name="crash", model=None, spec="crash-spec", spec_on_impl=True, shrink="prefix", thorough_shards=8),
+                dict(name="engine", model="engine", spec="engine-spec", spec_on_impl=True, shrink="prefix", thorough_shards=8, arg="mixed")],
+        exhaustive_claim=True,
+        predicate="for every crash point: restart succeeds; (position, image) is that before or that after the interrupted operation and after once the commit call had returned; position = newest LTX file; reported checksum = from-scratch checksum; no hot journal, no un-checkpointed WAL content; the write lock can be taken (Driver/EngineSpecD.lean `crashpoint`)",
+        explanation="C05_* theorems: journal rollback restores the pre-image from any partially written image (journal-protocol hypothesis explicit), re-applying the newest file is idempotent, hence recovery yields the image before or after the interrupted commit (C05_atomic); maxLTXFile picks the highest TXID. The crash suite enumerates every OS-layer call, page write, file truncate and operation boundary inside each operation shape on the real code (copy of the data directory per point, fresh Store.Open on each copy). Clean restarts inside histories are compared with the byte-level recovery model (Model/Recovery.lean).",
+        trusted=["copying the data directory between two calls is what a dying process leaves behind (completed syscalls persist; torn single writes and power loss are out of scope)",
+                 "OS-layer calls are intercepted by wrapping Store.OS; page writes / truncates by the verif hook VerifCrashPoint",
+                 "hand-written recovery model (Model/Recovery.lean) tied by the engine suite's restart steps"],
+        assumptions=["journal protocol: a page is journalled before it is overwritten (pager simulator)", "writes through already-open file handles (journal, WAL, LTX temp file contents) are not separate crash points"],
+    ),
 }
